@@ -74,3 +74,36 @@ func VF_C05_RemoveAll(which, c int) {
 	vf.WaitAll()
 	vf.Reach("end")
 }
+
+// VF_C05_AfterRemoveAll: RemoveAll on a quiescent queue (k values in a queue of capacity c, nobody blocked)
+// leaves an empty queue of the same capacity: c further AddValue calls return without a consumer, the
+// values come out in order, and the queue can be closed and drained.  kc = k*8 + c.
+func VF_C05_AfterRemoveAll(kc, _ int) {
+	k, c := kc/8, kc%8
+	if c == 0 || k > c {
+		vf.Reach("end")
+		return
+	}
+	vf.Budget(20000000)
+	q := col.Queue[int](nil).MakeWithCapacity(uint(c))
+	for i := 0; i < k; i++ {
+		q.AddValue(100 + i)
+	}
+	q.RemoveAll()
+	vf.Assert("empty-after-removeall", vf.And(q.IsEmpty(), q.GetSize() == 0))
+	vf.Assert("capacity-unchanged", int(q.GetCapacity()) == c)
+	x := vf.Int("x")
+	for i := 0; i < c; i++ {
+		q.AddValue(x + i) // a send on a full channel with nobody to receive is reported as a deadlock
+	}
+	vf.Assert("holds-capacity-values-again", q.GetSize() == c)
+	q.CloseQueue()
+	for i := 0; i < c; i++ {
+		v, ok := q.RemoveHead()
+		vf.Assert("values-come-out-in-order", vf.And(ok, v == x+i))
+	}
+	_, ok := q.RemoveHead()
+	vf.Assert("closed-and-drained", !ok)
+	vf.BudgetReset()
+	vf.Reach("end")
+}
